@@ -13,6 +13,7 @@ Gen(sd) == CASE Mode = "any" -> [class |-> "any", rule |-> GenAny(sd)]
              [] Mode = "identity" -> GenIdentity(sd)
              [] Mode = "f0" -> [class |-> "f0", rule |-> GenF0(sd)]
              [] Mode = "f1" -> [class |-> "f1", rule |-> GenF1(sd)]
+             [] Mode = "alphaenv" -> [class |-> "alphaenv", rule |-> GenAlphaEnv(sd)]
              [] Mode = "pairs" -> [class |-> "pair", rule |-> GenObserverPair(sd)[1], rule2 |-> GenObserverPair(sd)[2]]
 Init == s \in 1..N /\ r = <<>>
 Next == r = <<>> /\ r' = <<Gen(SeedOf(s))>> /\ UNCHANGED s
